@@ -47,6 +47,7 @@ def main():
     out["projection_checks"] = 0
     toks = {k: d.create(mode=v) for k, v in modes.items()}
     ptoks = {(k, p): d.create(mode=v, projection=p) for k, v in modes.items() for p in simple_proj}
+    case_split_out = MorphemeList.empty(d)
     for case in cases:
         if case.get("kind") == "lookup":
             got = sorted(m.word_id() for m in d.lookup(case["surface"]))
@@ -165,6 +166,16 @@ def main():
                 out["splits_compared"] += 1
                 if got != want:
                     mismatch("split", "morpheme %d split(%s): python %r, library %r" % (i, sm, got, want), {"text": text, "mode": mode})
+                # the same into one list that is reused for every morpheme (it holds the previous split when it comes back)
+                try:
+                    sub2 = m.split(modes[sm], out=case_split_out, add_single=False)
+                    got2 = [(x.raw_surface(), x.word_id(), x.begin(), x.end()) for x in sub2]
+                except (KeyboardInterrupt, SystemExit):
+                    raise
+                except BaseException as ex:  # noqa
+                    got2 = repr(ex)
+                if got2 != want:
+                    mismatch("split", "morpheme %d split(%s, out=<list reused for every morpheme>, add_single=False): python %r, library %r" % (i, sm, got2, want), {"text": text, "mode": mode})
 
     # ---- a tokenizer created with a field request, analysed with a per-call mode override: same boundaries as a
     # tokenizer created in that mode with the same field request (same fields, so path-rewrite plugins see the same data)
@@ -197,6 +208,35 @@ def main():
                      {"text": case["text"]})
         elif a2 != b2:
             mismatch("mode_override", "after a call with mode=%s the tokenizer created with mode=%s, fields=%r gives %r, a new one %r" % (over_m, base_m, sorted(fs), a2[:8], b2[:8]), {"text": case["text"]})
+
+    # ---- tokenizers created with a field request that names the split fields: splitting their morphemes gives the declared units
+    out["field_split_checks"] = 0
+    need = {"surface", "pos", "normalized_form"} if cfg.get("pathRewritePlugin") else set()
+    ftoks = {}
+    for case in cases:
+        if case.get("kind") == "lookup" or case["expected"] is None or case["mode"] != "C":
+            continue
+        for fs in ({"split_a"}, {"split_b"}, {"split_a", "split_b"}):
+            key = tuple(sorted(fs))
+            try:
+                if key not in ftoks:
+                    ftoks[key] = d.create(mode=SplitMode.C, fields=set(fs) | need)
+                ms = ftoks[key].tokenize(case["text"])
+                if len(ms) != len(case["expected"]):
+                    continue
+                for m, e in zip(ms, case["expected"]):
+                    for sm, fld in (("A", "split_a"), ("B", "split_b")):
+                        if fld not in fs:
+                            continue
+                        got = [(x.word_id(), x.begin(), x.end()) for x in m.split(modes[sm], add_single=False)]
+                        want = [(x[1], x[2], x[3]) for x in e["split_" + sm]]
+                        out["field_split_checks"] += 1
+                        if got != want:
+                            mismatch("split", "create(fields=%r): split(%s) of %r gives %r, the library (all fields) %r" % (sorted(fs), sm, m.raw_surface(), got, want), {"text": case["text"]})
+            except (KeyboardInterrupt, SystemExit):
+                raise
+            except BaseException:  # noqa
+                out["python_exceptions"] += 1
 
     # ---- dictionary building through the Python entry points: same bytes as the library's own compiler
     out["py_builds"] = 0
@@ -362,6 +402,39 @@ def main():
         for t in ths:
             t.join()
         for e in errors[:5]:
+            mismatch("thread", e, {})
+
+        # a pool of tokenizers created by this (the main) thread with a field request, each then used by one worker thread
+        pfields = {"pos", "surface", "normalized_form"} if cfg.get("pathRewritePlugin") else {"pos"}
+        def pview(tk, t):
+            return [(m.surface(), m.word_id(), m.begin(), m.end(), m.normalized_form(), m.reading_form(), m.dictionary_form(), m.part_of_speech_id()) for m in tk.tokenize(t)]
+        pref_tok = d.create(mode=SplitMode.C, fields=set(pfields))
+        pref = {t: pview(pref_tok, t) for t in texts}
+        pool = [d.create(mode=SplitMode.C, fields=set(pfields)) for _ in range(n_threads)]
+        perrors = []
+
+        def pool_work(tid):
+            r = random.Random(seed * 77 + tid)
+            for _ in range(100):
+                t = r.choice(texts)
+                try:
+                    got = pview(pool[tid], t)
+                except (KeyboardInterrupt, SystemExit):
+                    raise
+                except BaseException as ex:  # noqa
+                    perrors.append("thread %d: tokenize(%r) on a tokenizer created by the main thread raised %r" % (tid, t, ex))
+                    return
+                if got != pref[t]:
+                    perrors.append("thread %d, tokenizer created by the main thread with fields=%r: %r, single-threaded %r" % (tid, sorted(pfields), got[:4], pref[t][:4]))
+                    return
+                out["thread_results"] += 1
+
+        ths = [threading.Thread(target=pool_work, args=(i,)) for i in range(n_threads)]
+        for t in ths:
+            t.start()
+        for t in ths:
+            t.join()
+        for e in perrors[:5]:
             mismatch("thread", e, {})
 
         # the HuggingFace pre-tokenizer binding shares one object between threads; the `tokenizers` package is not
